@@ -40,9 +40,19 @@ fn random_sched(seed: u64, world: usize, params: &[SchedParams]) -> Box<dyn Sche
             fired_burst: false,
         })
         .collect();
+    let mut global = Rng::new(mix(&[seed, 0x610ba1, world as u64]));
+    let start_hold = (0..params.len())
+        .map(|_| match global.below(4) {
+            0 | 1 => 0,
+            2 => global.range(1, 6) as u32,
+            _ => global.range(6, 20) as u32,
+        })
+        .collect();
     Box::new(RandomScheduler {
-        global: Rng::new(mix(&[seed, 0x610ba1, world as u64])),
+        global,
         runs,
+        start_hold,
+        steps: 0,
     })
 }
 
@@ -716,7 +726,8 @@ impl Edit {
                 ch
             }
             Edit::NoMay => {
-                let ch = rs.may_abort || rs.may_forget || rs.may_drop_sender;
+                let ch = rs.may_abort || rs.may_forget || rs.may_drop_sender || rs.unwind_drop_mask != 0;
+                rs.unwind_drop_mask = 0;
                 rs.may_abort = false;
                 rs.may_forget = false;
                 rs.may_drop_sender = false;
